@@ -7,7 +7,6 @@ use serde::{Deserialize, Serialize};
 use serde_json::json;
 
 use super::c06::{self, Flags};
-use super::c07::show_samples;
 use super::common::*;
 use super::PropDef;
 use crate::cli::{self, run_ska};
@@ -213,7 +212,7 @@ fn check(c: &Case, ctx: &Ctx) -> Outcome {
                     let names: Vec<String> = del.iter().map(|i| t.names[*i].clone()).collect();
                     let mut args: Vec<String> = vec!["delete".into(), "-s".into(), "cur.skf".into()];
                     if *names_file {
-                        std::fs::write(dir.join("names.txt"), super::c08::names_file_text(&names, oi + n)).unwrap();
+                        std::fs::write(dir.join("names.txt"), super::common::names_file_text(&names, oi + n)).unwrap();
                         args.push("-f".into());
                         args.push("names.txt".into());
                     } else {
